@@ -109,6 +109,9 @@ def check(run, ctx):
         else:
             (run.ok(Y4, rec["func"], rec["detail"]) if rec["ok"] else run.finding(Y4, rec["func"], "no-generic-visit", f"{rec['func']}: {rec['detail']}: patterns nested inside a matched node are never visited", rec["loc"]))
 
+    for rec in shared.whole_tree_finders(ctx):
+        (run.ok(Y4, rec["func"], rec["detail"]) if rec["ok"] else run.finding(Y4, rec["func"], "partial-descent", f"{rec['func']}: {rec['detail']}", rec["loc"]))
+
     Y3 = run.rule("Y3", "node-kind literals in the TypeScript analyzers outside nesting are named kinds of the linked grammar", floor=60)
     g = ctx.grammar
     for m in repo.modules.values():
